@@ -774,10 +774,18 @@ pub fn finish(ctx: &Ctx, level: &str) -> i32 {
         return 1;
     }
     if !inconc.is_empty() {
-        for m in inconc.iter() {
+        for m in inconc.iter().take(20) {
             eprintln!("INCONCLUSIVE: {}", m);
         }
-        return 2;
+        // A handful of cases that could not be set up (a server that did not come up in time on
+        // a loaded machine) do not make the whole run inconclusive: they are not judged, they
+        // are listed in the evidence, and the run is decided by everything else.  More than
+        // that (or a watchdog / build problem, which never gets here) is exit 2.
+        let tolerated = (evaluations / 100).max(2) as usize;
+        if inconc.len() > tolerated || evaluations == 0 {
+            return 2;
+        }
+        eprintln!("NOTE: {} case(s) could not be set up and were not judged (tolerated: up to {})", inconc.len(), tolerated);
     }
     0
 }
